@@ -100,11 +100,12 @@ func (st LString) Type() LValueType { return LTString }
 // fmt.Formatter interface
 func (st LString) Format(f fmt.State, c rune) {
 	switch c {
-	case 'd', 'i':
-		if nm, err := parseNumber(string(st)); err != nil {
-			defaultFormat(nm, f, 'd')
+	case 'd', 'i', 'o', 'u', 'x', 'X', 'c', 'e', 'E', 'f', 'g', 'G':
+		// a conversion that takes a number: a string that reads as a number is converted first
+		if nm, err := parseNumber(string(st)); err == nil {
+			nm.Format(f, c)
 		} else {
-			defaultFormat(string(st), f, 's')
+			defaultFormat(string(st), f, c)
 		}
 	case 'q':
 		// a literal which the Lua reader turns back into the same string (addquoted in lstrlib.c), not Go's %q
